@@ -94,6 +94,13 @@ def run(tier, seed, replay):
     cov["rule"] = ("one case = one abstract request (tree, path, verb, method header, q, ids, action) of the bound; each is sent "
                    "plain and tunnelled to the bare handler and plain to the ServeMux / prefixed mountings, on both module generations")
     cov["exhaustive"] = True
+    # the routing tree built by GENERATED RegisterResource functions (both generators): every call of the generated clients
+    # of the VT resources, which Call.tla routes on the VT tree, must reach exactly the called method
+    from props import e2e_common
+    viol, st, rc = e2e_common.exchanges(scr, sdir, "C05/")
+    for o in viol:
+        verdict.add(o["key"], o["what"], o["case"])
+    cov["generated_registration_calls"] = st.get("calls", 0)
     code, n = verdict.finish()
     if replay:
         return code
@@ -101,6 +108,7 @@ def run(tier, seed, replay):
         "resource trees are the model's (T0/T2 quick, T1/T2/T3 thorough), registered with the generic Register* functions and string keys",
         "requests whose routed method's keys/parameters cannot decode (empty key, missing ids) admit 400 as well",
         "ServeMux mountings skip paths with empty segments (ServeMux redirects them itself)",
-        "filters: two passing recording filters on every server; failing / context-adding filters are not yet modelled",
+        "filters: two passing recording filters on every server; failing / context-adding chains are replayed from Filters.tla",
+        "generated registrations: the e2e exchanges of the VT resources (both generators) with plain argument content",
     ], time.time() - t0, n)
     return code
